@@ -183,7 +183,11 @@ func runStages(kind string, b []byte) []any {
 		s := stage("Request.UnmarshalJSON", func() error { return json.Unmarshal(b, &r) })
 		st = append(st, s)
 		if s["outcome"] == "value" {
-			st = append(st, stage("Request.Authorize", func() error { cedar.Authorize(entityProbe, types.EntityMap{}, r); _, err := json.Marshal(r); return err }))
+			st = append(st, stage("Request.Authorize", func() error {
+				cedar.Authorize(entityProbe, types.EntityMap{}, r)
+				_, err := json.Marshal(r)
+				return err
+			}))
 		}
 	case "schemajson", "schematext":
 		var sc schema.Schema
